@@ -210,14 +210,14 @@ ENTRIES = {
             "DESIGN.md section 3 C05"),
     "C07": ("translation_validation",
             "three-way differential over an enumerated query grammar x a family of database contents: plain-Python reference = in-memory engine = translated SQL on persisted objects",
-            "4471 queries (scalar comparisons in six operators, in_/contains with literal lists and strings, one- and two-step "
-            "relationship paths, enum literals, attribute-equality joins and cross-variable scalar comparisons, combined with "
+            "~4500 queries (scalar comparisons in six operators, in_/contains with literal lists and strings, one- and two-step "
+            "relationship paths, enum literals, attribute-equality joins and cross-variable scalar comparisons, literal comparisons on the second variable, combined with "
             "and_/or_ up to 3 leaves, quantified with an and the, subclass-typed variables, plus one instance of every construct "
             "the translator has no case for) are evaluated on 20 (thorough 64) database contents incl. contents where one "
             "entity has several join partners: the entities - and the row multiplicities, one row per binding - selected by the "
             "SQL statement produced by eql_to_sql in a fresh Session must be exactly those the in-memory engine and a plain-Python "
             "reference select over the original objects, the() must fail in both worlds for the same queries, and anything the "
             "translator cannot express must raise EQLTranslationError.",
-            "SQLite; references on queried paths are never None; pairs where the in-memory engine disagrees with the reference are left to C01.",
+            "SQLite; references on queried paths are never None; pairs where the in-memory engine disagrees with the reference are left to C01; recorded findings C07-F3/F4 (known_findings.json) are reported as KNOWN-FINDING lines.",
             "DESIGN.md section 3 C07"),
 }
